@@ -472,7 +472,9 @@ def skeletons(prop: str, tier: str) -> Tuple[List[Any], Dict[str, Any]]:
             am = am_chains(3, [("const", 0), ("var", "x"), ("var", "y"), kx]) + \
                 [t for t in am_chains(4, [("const", 0), kx]) if sk_size(t) > 9]
         else:
-            am = am_chains(4, [("const", 0), ("var", "x"), ("var", "y"), kx, ("pow", ("var", "x"), ("const", 0))])
+            # sized to finish inside the thorough budget: all five leaf kinds for 3 leaves, three for 4 leaves
+            am = am_chains(3, [("const", 0), ("var", "x"), ("var", "y"), kx, ("pow", ("var", "x"), ("const", 0))]) + \
+                [t for t in am_chains(4, [("const", 0), ("var", "x"), kx]) if sk_size(t) > 5]
         sks.extend(am)
         if tier == "quick":
             AM_ONLY.update(am)
